@@ -492,12 +492,16 @@ impl ManagePatches for PatchManager {
     fn reset(&mut self) -> Result<()> {
         self.patches_state = PatchesState::default();
         self.save_patches_state()?;
-        std::fs::remove_dir_all(self.patches_dir()).with_context(|| {
-            format!(
-                "Failed to delete patches dir {}",
-                self.patches_dir().display()
-            )
-        })
+        match std::fs::remove_dir_all(self.patches_dir()) {
+            // Nothing was ever installed: there is nothing to delete.
+            Err(e) if e.kind() == std::io::ErrorKind::NotFound => Ok(()),
+            result => result.with_context(|| {
+                format!(
+                    "Failed to delete patches dir {}",
+                    self.patches_dir().display()
+                )
+            }),
+        }
     }
 }
 
